@@ -9,8 +9,22 @@ import (
 	"sort"
 	"strings"
 
-	lru "github.com/hashicorp/golang-lru"
 )
+
+// verifLRU is what the dump needs of a per-key container (the LRU itself, or a wrapper that embeds it): a
+// change of the container's type must not crash the dump - what it cannot read it renders as "?<type>".
+type verifLRU interface {
+	Len() int
+	Keys() []interface{}
+	Peek(key interface{}) (interface{}, bool)
+}
+
+func verifEntry(v interface{}) string {
+	if vn, ok := v.(valueNode); ok {
+		return verifVN(vn)
+	}
+	return fmt.Sprintf("?%T", v)
+}
 
 func verifVN(v valueNode) string {
 	if v.deleted {
@@ -32,14 +46,18 @@ func VerifDump(sc *StateCache) (dump string, maxPerKey, links int) {
 		if !ok {
 			continue
 		}
-		bvs := bvsi.(*lru.Cache)
+		bvs, isLRU := bvsi.(verifLRU)
+		if !isLRU {
+			out = append(out, fmt.Sprintf("%v{?%T}", k, bvsi))
+			continue
+		}
 		if bvs.Len() > maxPerKey {
 			maxPerKey = bvs.Len()
 		}
 		var es []string
 		for _, b := range bvs.Keys() {
 			v, _ := bvs.Peek(b)
-			es = append(es, fmt.Sprintf("%v:%s", b, verifVN(v.(valueNode))))
+			es = append(es, fmt.Sprintf("%v:%s", b, verifEntry(v)))
 		}
 		sort.Strings(es)
 		out = append(out, fmt.Sprintf("%v{%s}", k, strings.Join(es, ",")))
@@ -75,10 +93,11 @@ func VerifView(sc *StateCache, key string) (known bool, entries map[string]strin
 	entries, links = map[string]string{}, map[string]string{}
 	if bvsi, ok := sc.cache.Peek(key); ok {
 		known = true
-		bvs := bvsi.(*lru.Cache)
-		for _, b := range bvs.Keys() {
-			v, _ := bvs.Peek(b)
-			entries[fmt.Sprint(b)] = verifVN(v.(valueNode))
+		if bvs, isLRU := bvsi.(verifLRU); isLRU {
+			for _, b := range bvs.Keys() {
+				v, _ := bvs.Peek(b)
+				entries[fmt.Sprint(b)] = verifEntry(v)
+			}
 		}
 	}
 	for _, b := range sc.hashCache.Keys() {
